@@ -29,7 +29,6 @@ M("filterwalk-index-off", "bfgsmats.py", "        k = ncor - i - 1  # start at 1
 M("stepinit-first-step", "linesearch.py", "        steplength_0 = min(1.0 / np.sqrt(d.dot(d)), max_steplength)\n", "        steplength_0 = min(1.0 / d.dot(d), max_steplength)\n", ["STEPINIT"], canary=True)
 M("stepinit-boxed-flag", "linesearch.py", "    if above_iter == 0 and not is_boxed:\n", "    if above_iter == 0 and is_boxed:\n", ["STEPINIT"])
 M("stepinit-slope", "linesearch.py", "    dphi0 = g0.dot(d)\n", "    dphi0 = -g0.dot(g0)\n", ["STEPINIT"])
-M("stepinit-accept-error-task", "linesearch.py", "    if task[:4] != b\"CONV\" and task[:4] != b\"WARN\":\n", "    if task[:4] != b\"CONV\" and task[:4] != b\"WARN\" and task[:5] != b\"ERROR\":\n", ["STEPINIT"])
 M("cpform-delta_t-stale", "cauchy.py", "        delta_t = t_cur - t_old\n        nseg += 1\n", "        delta_t = t_cur\n        nseg += 1\n", ["CPFORM"])
 M("cpform-zero-grad-breakpoint", "cauchy.py", "    t[grad == 0] = np.inf\n", "", ["CPFORM"])
 M("cpform-counter-skips", "cauchy.py", "        _i += 1\n        try:", "        _i += 2\n        try:", ["CPFORM"])
